@@ -86,6 +86,25 @@ class Run:
                 pass
         return d
 
+    def probe(self, name, fn):
+        """run fn(sub) on a scratch collector; anything it reports is re-labelled as
+        the single violation kind 'probe:<name>' (how open known findings are matched)"""
+        sub = Run(self.prop, self.tier, self.seed, self.level)
+        try:
+            fn(sub)
+        finally:
+            self.cov["states"] += sub.cov["states"]; self.cov["transitions"] += sub.cov["transitions"]
+            self.cov["traces_validated_against_impl"] += sub.cov["traces_validated_against_impl"]
+            self.cov["units"] += [dict(u, probe=name) for u in sub.cov["units"]]
+            self.errors += sub.errors
+            if sub.violations:
+                v0 = sub.violations[0]
+                self.violation("probe:" + name, "probe %s: %s" % (name, v0.what), v0.detail, v0.files)
+                # keep the files alive until finish() copies them
+                self._probe_dirs = getattr(self, "_probe_dirs", []) + [sub.work]
+            else:
+                shutil.rmtree(sub.work, ignore_errors=True)
+
     # ---------------------------------------------------------------- finish
     def finish(self):
         wall = time.time() - self.t0
@@ -110,6 +129,7 @@ class Run:
         os.replace(tmp, os.path.join(VERIF, "evidence", "%s.json" % self.prop))
         dirs = [self._replay_dir(v, n) for n, v in enumerate(real[:5])]
         shutil.rmtree(self.work, ignore_errors=True)
+        for pd in getattr(self, "_probe_dirs", []): shutil.rmtree(pd, ignore_errors=True)
         if self.errors and not real:
             print("ERROR property=%s infrastructure/model failure: %s" % (self.prop, self.errors[0][:300]))
             return 2
